@@ -9,8 +9,8 @@
    key (C05_complete), soundness for every node set (C05_sound).  The pinned tree violates both
    (C05_pinned_refuted). *)
 From Common Require Import Bytes Outcome Blake2b.
-From TrieCodec Require Import Codec View Db ProofsDecode ProofsDb.
-From C05 Require Import Model ProofsSound ProofsInj ProofsGen ProofsComplete ProofsRobust Examples.
+From TrieCodec Require Import Codec View Db ProofsBasic ProofsDecode ProofsDb.
+From C05 Require Import Model ProofsSound ProofsInj ProofsGen ProofsComplete ProofsRobust ProofsFuel Examples.
 Local Open Scope N_scope.
 
 (* Completeness.  For every well-formed state trie t (either version: any mix of inline and hashed
@@ -73,6 +73,25 @@ Theorem C05_verify_no_panic :
   verify H st dfix true ifix true nodes (H (encode H t)) key value <> Panic.
 Proof. exact verify_no_panic. Qed.
 Print Assumptions C05_verify_no_panic.
+
+(* Totality: against the root hash of a well-formed state Verify answers nil or an error for EVERY
+   proof item list — no panic, and the fuel S (S (length nodes)) that the model gives loadProof (Go
+   has none) is never exhausted: on one descent every child found among the items is the encoding of
+   a nested subtree (no_coll), nested subtrees have different encodings (inj_on), so a descent of
+   depth k meets k different items.  Hence C05_sound does not rest on the model's fuel: whenever Go
+   would answer, the model answers the same. *)
+Theorem C05_verify_total :
+  forall (H : list byte -> list byte), (forall x, length (H x) = 32%nat) ->
+  forall st dfix ifix nodes t key value,
+  wf_node t = true -> no_coll H nodes t -> inj_on H (strings_of H t) ->
+     verify H st dfix true ifix true nodes (H (encode H t)) key value = Ok tt
+  \/ exists c, verify H st dfix true ifix true nodes (H (encode H t)) key value = Err c.
+Proof.
+  intros H Hlen st dfix ifix nodes t key value W Nc Hinj.
+  pose proof (verify_total H Hlen st dfix ifix nodes t key value W Nc Hinj) as Hv.
+  destruct (verify _ _ _ _ _ _ _ _ _ _) as [[]|c| |]; cbn in Hv; try contradiction; eauto.
+Qed.
+Print Assumptions C05_verify_total.
 
 (* ... and it does panic on the item 00 under the root hash of the empty state *)
 Example C05_verify_panics_on_empty_node :
